@@ -7,5 +7,5 @@ CONSTANTS Acct <- AcctC
  WithSeal = TRUE
  FreeVals = FALSE
  Dv = {"@DEV@"}
-INVARIANTS UndoMatchesSaved NoPanic RevsOK DiscardAllIsBase RedoEqualsExec
+INVARIANTS UndoMatchesSaved NoPanic RevsOK DiscardAllIsBase RedoEqualsExec NoTraceOfReverted
 CHECK_DEADLOCK FALSE
